@@ -292,9 +292,19 @@ func init() {
 			n := c.Pick(6, 60)
 			for len(ls) < n {
 				ec := &eCase{mode: "pers", root: "root", wf: true}
-				genApp(c, ec)
-				ec.out = []int{0, 160}[c.Rng.Intn(2)]
-				adaptiveInputs(c, ec)
+				if len(ls) == 0 || c.Rng.Intn(3) == 0 {
+					// a scenario application (values ending in newlines, deep paths, many symbols ...)
+					k := c.Rng.Intn(len(scenarios))
+					if len(ls) == 0 {
+						k = 0
+					}
+					ec = scenarios[k](c)
+					ec.mode = "pers"
+				} else {
+					genApp(c, ec)
+					ec.out = []int{0, 160}[c.Rng.Intn(2)]
+					adaptiveInputs(c, ec)
+				}
 				if len(ec.inputs) < 3 {
 					continue
 				}
@@ -354,7 +364,9 @@ func init() {
 				}
 			}
 			if recName == "" {
-				return "harness-error no-record"
+				// the history has not saved anything before request n (for instance its first input was refused)
+				c.Count("skipped:no-record-before-request")
+				return "none"
 			}
 			oldRec, _ := os.ReadFile(filepath.Join(oldDir, recName))
 			// the CBOR bytes of one state differ between runs (map order): records are compared decoded
